@@ -31,7 +31,7 @@ for d in sorted(glob.glob(os.path.join(V, "seeded", "[STU]*_*"))):
             what = ln[:140]
             break
     rows.append("| %s | %s | %s | %s | %s | `%s` |" % (m["id"], ",".join(m["breaks"]), ", ".join(files), what.replace("|", "/"), verdict.replace(" (exit 2)", ""), ob.replace("|", "\\|")[:120]))
-txt = "Forty-five breaking changes were written by independent sub-agents that saw only the text of a property and a scratch worktree of /repo (nothing from /verif); two rounds (`S*` against the tree before the repairs, `T*` against 346b94f). Each was confirmed independently (`tools/confirm_seed.sh`: applies, compiles, the 95 baseline tests pass, the demo fails with it and passes without it) and is kept under `seeded/<id>/` (patch, demo, notes, confirm log, meta). `tools/seed_matrix.py` applies each to /repo, runs the checks of the properties it breaks and undoes it.\n\n"
+txt = "%d breaking changes were written by independent sub-agents that saw only the text of a property and a scratch worktree of /repo (nothing from /verif), in three rounds (`S*` against the tree before the repairs, `T*` against 346b94f, `U3*` - two cooperating sites / multi-step sequences - against 53178b9)." % len(rows) + " Each was confirmed independently (`tools/confirm_seed.sh`: applies, compiles, the 95 baseline tests pass, the demo fails with it and passes without it) and is kept under `seeded/<id>/` (patch, demo, notes, confirm log, meta). `tools/seed_matrix.py` applies each to /repo, runs the checks of the properties it breaks and undoes it.\n\n"
 txt += "**Result: %s.** No seeded change is accepted as holding (exit 0). The undecided ones left the subset the verifier can read (array-of-&mut iteration, iterator-chain rewrites, `continue` inside `for`, a call to a function the unit does not contain, a newly extracted helper): the check says exit 2 'unsupported construct', never 'holds'.\n\n" % ", ".join("%d %s" % (v, k) for k, v in sorted(cnt.items()))
 txt += "| id | breaks | file(s) | what the change does | verdict | failing obligation / reason |\n|---|---|---|---|---|---|\n" + "\n".join(rows) + "\n\n"
 nt = os.path.join(V, "neutral", "RESULTS.txt")
@@ -44,7 +44,7 @@ if os.path.exists(nt):
             rc[m.group(1)] = rc.get(m.group(1), 0) + 1
     txt += "**False-alarm test.** %d behaviour-preserving refactorings (`neutral/N*/`: renamed locals, reordered independent statements, `match` vs `if let`, hoisted expressions, early return vs if/else, ...) were written by another independent sub-agent over the verified functions and run through the same checks (`tools/run_neutral.sh`): %s. " % (
         len(set(l.split()[1] for l in lines)), ", ".join("%s runs exit %s" % (v, k) for k, v in sorted(rc.items())))
-    txt += "The first run of this test produced one false alarm (a loop bound hoisted into a local made the `decreases` clause of `crypt_package` unprovable); extracted functions are since verified with loop isolation off, outline anchors accept renamed closure parameters, `Cells::add/remove` verify without proof hints, and loops are found by their header rather than their ordinal. Exit 2 remains the answer when a refactoring rewrites an outlined statement.\n"
+    txt += "The first runs of this test produced **two false alarms**, both repaired in the machinery (never by loosening a contract): a loop bound hoisted into a local made the `decreases` clause of `crypt_package` unprovable (extracted functions are since verified with loop isolation off), and an explicit `value.into()` before a generic setter could not be related to the contract's `sp_into` (now defined through vstd's `IntoSpec`). Besides, outline anchors accept renamed closure parameters, `Cells::add/remove` verify without proof hints, and loops are found by their header rather than their ordinal. Exit 2 remains the answer when a refactoring rewrites an outlined statement.\n"
 s = open(os.path.join(V, "DESIGN.md")).read()
 i = s.index("<!--SEEDED-BEGIN-->") + len("<!--SEEDED-BEGIN-->")
 j = s.index("<!--SEEDED-END-->")
